@@ -44,6 +44,15 @@ CHECKS = {
         "Trusted: wcwidth package as the Unicode width table; token widths for wide/narrow byte modes (pair = 2 columns, byte = 1).",
         "DESIGN.md §4 C11",
     ),
+    "C03": (
+        MC,
+        "bounded-exhaustive enumeration of all short texts x widths x wrap modes x alignments x encodings through the real layout and Text.render, judged by an exact greedy reference ('any'), legality rules ('space') and column-window references (clip/ellipsis)",
+        "Every string of <= 5/7 characters over [a, b, space, newline, double-width, combining] (and the encodable subsets for euc-jp / iso-8859-1), "
+        "as str and as bytes, at every width 1..4/6, wrap mode and alignment: the layout structure is read with an own parser (order, once, "
+        "segment widths, hidden characters, fit, alignment), rows() is compared with rendered rows, and rendered rows with the reference.",
+        "Trusted: mc/refs/widths.py cell model (wcwidth); zero-width characters are not compared inside rendered rows.",
+        "DESIGN.md §4 C03",
+    ),
 }
 
 PENDING_REASON = "check not built yet in this round (see DESIGN.md Appendix B build order); no claim is made"
